@@ -92,6 +92,14 @@ def gen_config(rnd, tier):
                 events.append(q)
     half = [F(k, 2) for k in range(-8, 9)]
     whole = [F(k) for k in range(-4, 5)]
+    # a third of the configurations use a Discrete menu of allocations in numbers of contracts (entry 0 is whatever it is: the
+    # null actions that fill the delay queue denote IT), the others a Box space
+    menu = None
+    if rnd.random() < 0.33:
+        menu = []
+        for _ in range(rnd.randint(4, 8)):
+            ks = rnd.sample(names, rnd.randint(0, min(3, len(names))))
+            menu.append({c: rnd.choice([x for x in (half if fractional else whole) if x != 0]) for c in ks})
     episodes = []
     # every other configuration splits the data into two folds (the first episode runs through fold "a", the second inside fold
     # "f"), and stamps everything with pandas Timestamps carrying a sub-microsecond remainder: the fold bounds are then instants
@@ -119,10 +127,10 @@ def gen_config(rnd, tier):
             else:
                 for c in rnd.sample(names, rnd.randint(1, len(names))):
                     cur[c] = rnd.choice(half if (fractional or rnd.random() < 0.5) else whole)
-            acts.append(dict(cur))
+            acts.append(rnd.randrange(len(menu)) if menu is not None else dict(cur))
         episodes.append({"start": start, "length": length, "actions": acts, "lo": lo, "hi": hi})
     return {"names": names, "grid": grid, "lat": lat, "delay": delay, "fees": fees, "fractional": fractional,
-            "events": events, "episodes": episodes, "steps": steps, "prevs": prevs, "folded": folded, "nano": nano, "split": m}
+            "events": events, "episodes": episodes, "steps": steps, "prevs": prevs, "folded": folded, "nano": nano, "split": m, "menu": menu}
 
 
 class Recorder:
@@ -233,7 +241,13 @@ def run_env(cfg):
                    for e in cfg["events"]])
     fixed, prop = FEES[cfg["fees"]]
     fees = BrokerFees(markup=0.0, interest_rate=Rate("VERIF-RATE"), proportional=float(prop), fixed=float(fixed))
-    space = BoxPortfolio([cs[n] for n in cfg["names"]], low=-8.0, high=8.0, as_weights=False, fractional=cfg["fractional"], margin=0.0)
+    if cfg.get("menu") is not None:
+        from tradingenv.spaces import DiscretePortfolio
+        space = DiscretePortfolio([cs[n] for n in cfg["names"]], [[float(a.get(n, 0)) for n in cfg["names"]] for a in cfg["menu"]],
+                                  as_weights=False, fractional=cfg["fractional"])
+    else:
+        space = BoxPortfolio([cs[n] for n in cfg["names"]], low=-8.0, high=8.0, as_weights=False, fractional=cfg["fractional"],
+                             margin=0.0)
     env = TradingEnv(action_space=space, state=[Obs()], reward=R.RewardPnL(), transmitter=tr, broker_fees=fees,
                      latency=cfg["lat"], steps_delay=cfg["delay"], initial_cash=float(DEPOSIT))
     rec.env = env
@@ -276,9 +290,11 @@ def run_env(cfg):
         env.broker.rebalance = wrapped
         for act in ep["actions"]:
             now = secs(env.now())
-            rec.ops.append({"op": "submit", "alloc": {n: rat(v) for n, v in act.items() if v != 0}, "t": now})
+            denoted = cfg["menu"][act] if cfg.get("menu") is not None else act
+            rec.ops.append({"op": "submit", "alloc": {n: rat(v) for n, v in denoted.items() if v != 0}, "t": now})
             rec.pending_quotes = []
-            out, val = impl.classify(lambda: env.step(np.array([float(act[n]) for n in cfg["names"]])))
+            arg = int(act) if cfg.get("menu") is not None else np.array([float(act[n]) for n in cfg["names"]])
+            out, val = impl.classify(lambda: env.step(arg))
             if out != "ok":
                 rec.ops.append({"op": "abort", "out": out, "error": repr(val)[:200]})
                 return rec.ops
@@ -308,7 +324,8 @@ def record(n, seed, tier):
 def _batch(rep, group, clauses, tag):
     """TLC validates one batch of traces sharing a contract set and a fee schedule"""
     names, fees = group[0]["cfg"]["names"], group[0]["cfg"]["fees"]
-    traces = [{"ops": g["ops"], "latency": g["cfg"]["lat"], "delay": g["cfg"]["delay"], "steps": g["cfg"]["steps"], "prevs": g["cfg"]["prevs"]} for g in group]
+    traces = [{"ops": g["ops"], "latency": g["cfg"]["lat"], "delay": g["cfg"]["delay"], "steps": g["cfg"]["steps"], "prevs": g["cfg"]["prevs"],
+               "null": {n: rat(v) for n, v in (g["cfg"]["menu"][0] if g["cfg"].get("menu") else {}).items() if v != 0}} for g in group]
     wd = tlc.new_workdir(rep.prop + "-eltrace")
     path = os.path.join(wd, "traces.json")
     with open(path, "w") as f:
